@@ -603,7 +603,30 @@ class ExpressionTranslator(SummandTranslator):
                 return f"(nabs N {self.asT(self.expr(e.args[0]))})", "T"
             if name == "rint":
                 return f"(nround N {self.asT(self.expr(e.args[0]))})", "Z"
+            if name in FUN1:
+                return f"({FUN1[name]} N {self.asT(self.expr(e.args[0]))})", "T"
         return super().expr(e)
+
+    def block(self, src, pattern, subs, coqname, order):
+        """pattern has two groups: a run of assignment statements and a final expression (e.g. the argument of
+        `gamma_list.append(...)`); `subs` are textual substitutions applied first (array reads -> scalar names)."""
+        import re
+        found = re.findall(pattern, src, flags=re.S)
+        if len(found) != 1:
+            raise Untranslatable(f"pattern {pattern!r} found {len(found)} times in the source")
+        stm, fin = found[0]
+        for a, b in subs:
+            stm, fin = stm.replace(a, b), fin.replace(a, b)
+        lets = []
+        for node in ast.parse(textwrap.dedent(stm)).body:
+            if not (isinstance(node, ast.Assign) and len(node.targets) == 1 and isinstance(node.targets[0], ast.Name)):
+                raise Untranslatable("statement in the block is not a simple assignment")
+            t, ty = self.expr(node.value)
+            self.types[node.targets[0].id] = ty
+            lets.append(f"let v_{node.targets[0].id} := {t} in")
+        t, ty = self.expr(ast.parse(" ".join(fin.split()), mode="eval").body)
+        binders = " ".join(f"(v_{a} : {self.types[a]})" for a in order)
+        return f"Definition {coqname} {{T : Type}} (N : Num T) {binders} : {ty} :=\n  " + "\n  ".join(lets + [t]) + "."
 
     def expression(self, src, pattern, coqname, order):
         import re
